@@ -1,0 +1,192 @@
+//go:build verif
+
+// Verification hooks (build tag `verif` only; with the tag off this file is excluded and
+// nothing changes).  They give the /verif correspondence harness what it cannot reach from
+// outside the package: a synchronous garbage-collection run, a canonical dump of all five
+// indexes and the gcSize field, a pinned clock, the capacity, the existing testHook*
+// variables, and deterministic control over the background goroutines.
+package localstore
+
+import (
+	"github.com/gauss-project/aurorafs/pkg/boson"
+	"github.com/gauss-project/aurorafs/pkg/shed"
+)
+
+// VerifDataEntry is one entry of retrievalDataIndex.
+type VerifDataEntry struct {
+	Address        []byte
+	BinID          uint64
+	StoreTimestamp int64
+	Data           []byte
+}
+
+// VerifAccessEntry is one entry of retrievalAccessIndex.
+type VerifAccessEntry struct {
+	Address         []byte
+	AccessTimestamp int64
+}
+
+// VerifGCEntry is one entry of gcIndex (key AccessTimestamp|BinID|Address, value GCounter).
+type VerifGCEntry struct {
+	AccessTimestamp int64
+	BinID           uint64
+	Address         []byte
+	GCounter        uint64
+}
+
+// VerifPinEntry is one entry of pinIndex.
+type VerifPinEntry struct {
+	Address    []byte
+	PinCounter uint64
+}
+
+// VerifBinID is one non-zero entry of the binIDs vector.
+type VerifBinID struct {
+	PO uint8
+	ID uint64
+}
+
+// VerifState is everything localstore persists, in index (= key byte) order.
+type VerifState struct {
+	Data   []VerifDataEntry
+	Access []VerifAccessEntry
+	GC     []VerifGCEntry
+	Pin    []VerifPinEntry
+	BinIDs []VerifBinID
+	GCSize uint64
+}
+
+func cp(b []byte) []byte { return append([]byte(nil), b...) }
+
+// VerifDump reads all five indexes (ascending key order), the non-zero binIDs and gcSize.
+// It takes batchMu so that it never observes a half-applied operation.
+func (db *DB) VerifDump() (st VerifState, err error) {
+	db.batchMu.Lock()
+	defer db.batchMu.Unlock()
+	err = db.retrievalDataIndex.Iterate(func(item shed.Item) (bool, error) {
+		st.Data = append(st.Data, VerifDataEntry{Address: cp(item.Address), BinID: item.BinID, StoreTimestamp: item.StoreTimestamp, Data: cp(item.Data)})
+		return false, nil
+	}, nil)
+	if err != nil {
+		return st, err
+	}
+	err = db.retrievalAccessIndex.Iterate(func(item shed.Item) (bool, error) {
+		st.Access = append(st.Access, VerifAccessEntry{Address: cp(item.Address), AccessTimestamp: item.AccessTimestamp})
+		return false, nil
+	}, nil)
+	if err != nil {
+		return st, err
+	}
+	err = db.gcIndex.Iterate(func(item shed.Item) (bool, error) {
+		st.GC = append(st.GC, VerifGCEntry{AccessTimestamp: item.AccessTimestamp, BinID: item.BinID, Address: cp(item.Address), GCounter: item.GCounter})
+		return false, nil
+	}, nil)
+	if err != nil {
+		return st, err
+	}
+	err = db.pinIndex.Iterate(func(item shed.Item) (bool, error) {
+		st.Pin = append(st.Pin, VerifPinEntry{Address: cp(item.Address), PinCounter: item.PinCounter})
+		return false, nil
+	}, nil)
+	if err != nil {
+		return st, err
+	}
+	for po := 0; po <= int(boson.MaxPO); po++ {
+		id, err := db.binIDs.Get(uint64(po))
+		if err != nil {
+			return st, err
+		}
+		if id != 0 {
+			st.BinIDs = append(st.BinIDs, VerifBinID{PO: uint8(po), ID: id})
+		}
+	}
+	st.GCSize, err = db.gcSize.Get()
+	return st, err
+}
+
+// VerifCollectGarbage performs exactly one collectGarbage run synchronously on the caller's
+// goroutine (the same function the background worker calls).
+func (db *DB) VerifCollectGarbage() (collectedCount uint64, done bool, err error) {
+	return db.collectGarbage()
+}
+
+// VerifGCTarget exposes gcTarget() for the current capacity.
+func (db *DB) VerifGCTarget() uint64 { return db.gcTarget() }
+
+// VerifSetCapacity changes the capacity (read by gcTarget and by the trigger condition).
+func (db *DB) VerifSetCapacity(c uint64) {
+	db.batchMu.Lock()
+	db.capacity = c
+	db.batchMu.Unlock()
+}
+
+// VerifCapacity returns the current capacity.
+func (db *DB) VerifCapacity() uint64 { return db.capacity }
+
+// VerifStopGCWorker terminates the background collectGarbageWorker goroutine (and only it)
+// so that collection runs happen only through VerifCollectGarbage.  Afterwards a fired
+// trigger stays in the (buffered) trigger channel, where VerifTakeGCTrigger observes it.
+// Close still works normally afterwards.  Must be called right after New, before any
+// operation, from the goroutine that owns the DB.
+func (db *DB) VerifStopGCWorker() {
+	close(db.close)
+	<-db.collectGarbageWorkerDone
+	db.close = make(chan struct{})
+	db.VerifTakeGCTrigger()
+}
+
+// VerifTakeGCTrigger reports whether a garbage-collection trigger is pending and clears it.
+// Only meaningful after VerifStopGCWorker.
+func (db *DB) VerifTakeGCTrigger() bool {
+	select {
+	case <-db.collectGarbageTrigger:
+		return true
+	default:
+		return false
+	}
+}
+
+// VerifWaitUpdateGC waits until every updateGC goroutine spawned by Get/GetMulti in
+// ModeGetRequest has finished.
+func (db *DB) VerifWaitUpdateGC() { db.updateGCWG.Wait() }
+
+// VerifGCState returns the gcRunning flag and a copy of dirtyAddresses.
+func (db *DB) VerifGCState() (running bool, dirty []boson.Address) {
+	db.batchMu.Lock()
+	defer db.batchMu.Unlock()
+	return db.gcRunning, append([]boson.Address(nil), db.dirtyAddresses...)
+}
+
+// VerifSetNow replaces the package clock `now`; the returned function restores it.
+func VerifSetNow(f func() int64) (restore func()) {
+	old := now
+	now = f
+	return func() { now = old }
+}
+
+// VerifSetHookGCIteratorDone sets testHookGCIteratorDone (called by collectGarbage between
+// candidate selection and eviction, outside batchMu); the returned function restores it.
+func VerifSetHookGCIteratorDone(f func()) (restore func()) {
+	old := testHookGCIteratorDone
+	testHookGCIteratorDone = f
+	return func() { testHookGCIteratorDone = old }
+}
+
+// VerifSetHookCollectGarbage sets testHookCollectGarbage (called by the background worker
+// after every run); the returned function restores it.
+func VerifSetHookCollectGarbage(f func(collectedCount uint64)) (restore func()) {
+	old := testHookCollectGarbage
+	testHookCollectGarbage = f
+	return func() { testHookCollectGarbage = old }
+}
+
+// VerifSetHookUpdateGC sets testHookUpdateGC (called at the end of every updateGC
+// goroutine); the returned function restores it.
+func VerifSetHookUpdateGC(f func()) (restore func()) {
+	old := testHookUpdateGC
+	testHookUpdateGC = f
+	return func() { testHookUpdateGC = old }
+}
+
+// VerifGCBatchSize returns gcBatchSize (limit of GCounter collected by one run).
+func VerifGCBatchSize() uint64 { return gcBatchSize }
